@@ -93,7 +93,8 @@ ForwardTerms(n, amt, cltv, h) ==
 \* B fails upstream only when the downstream HTLC can no longer be claimed by the next hop
 MayFailUp(n, e, id) ==
   LET h == Get(e, "in", id).hash IN
-  Has(e, "in", id) => (AnyClosed(n) \/ (<<n, h>> \notin fw.downFul /\ ~OutLive(n, h)))
+  Has(e, "in", id) => /\ ~OutLive(n, h)                                    \* still claimable on an open downstream channel
+                      /\ (<<n, h>> \in fw.downFul => n \in fw.crashed)     \* given the preimage: only a crash can have lost it
 
 Harmless == Ignored \cup {"error", "channel_reestablish"}
 TMsg ==
@@ -141,7 +142,8 @@ TDeliver ==
             ELSE IF R.kind = "update_fulfill_htlc" THEN [fw EXCEPT !.downFul = @ \cup {<<R.to, R.hash>>}]
             ELSE IF R.kind = "revoke_and_ack" /\ ~Closed(EP(R.chan, R.to))
                  THEN \* fulfilled outbound HTLCs whose removal this revocation makes irrevocable
-                      [fw EXCEPT !.settledNow = {<<EP(R.chan, R.to), x.hash>> : x \in {y \in hs[EP(R.chan, R.to)] : y.dir = "out" /\ y.rem = 3 /\ y.res = "fulfill"}}]
+                      \* (accumulated: the monitor update of this revocation may be held back and reach Persist later)
+                      [fw EXCEPT !.settledNow = @ \cup {<<EP(R.chan, R.to), x.hash>> : x \in {y \in hs[EP(R.chan, R.to)] : y.dir = "out" /\ y.rem = 3 /\ y.res = "fulfill"}}]
             ELSE fw
   /\ LET k == R.kind  e == EP(R.chan, R.to) IN
      IF R.chan = 0 \/ Closed(e) THEN UNCHANGED cvars ELSE
@@ -226,6 +228,7 @@ TCrash ==
   /\ IsEvent("crash")
   /\ UNCHANGED <<nodeOf, saved, everRAA, projB>>
   /\ fw' = [fw EXCEPT !.crashed = @ \cup {R.node},
+                       !.settledNow = {p \in @ : p[1] \notin EPsOf(R.node)},
                        !.liveAtCrash = {p \in @ : p[1] # R.node} \cup
                           {<<R.node, x.hash>> : x \in UNION {{y \in hs[e] : y.dir = "out" /\ MonIds[e] >= mon[e].last} : e \in {z \in EPsOf(R.node) : ~Closed(z)}}},
                        \* claims the durable monitor knows (peer's signature for the removal was accepted, so the
@@ -295,7 +298,10 @@ TProj ==
   /\ UNCHANGED <<cvars, nodeOf, saved, everRAA, fw>>
   /\ projB' = [n \in DOMAIN projB \cup {<<R.node, R.chan>>} |-> IF n = <<R.node, R.chan>> THEN R ELSE projB[n]]
   \* at the end of a wound-down run nothing is left pending on an open channel
-  /\ (R.final /\ ~Closed(EP(R.chan, R.node))) => G1(R.n_in = 0 /\ R.n_out = 0 /\ hs[EP(R.chan, R.node)] = {})
+  \* (an HTLC whose other leg is on a channel that was force-closed waits for the chain, which is not part of these runs)
+  /\ (R.final /\ ~Closed(EP(R.chan, R.node))) =>
+        /\ G1(\A x \in hs[EP(R.chan, R.node)] : \E a \in fw.adds : a.hash = x.hash /\ Closed(EP(a.chan, a.node)))
+        /\ G1(R.n_in + R.n_out = Cardinality(hs[EP(R.chan, R.node)]))
   \* the projection after a reload equals the one taken before it
   /\ (R.after_reload /\ <<R.node, R.chan>> \in DOMAIN projB) =>
         LET b == projB[<<R.node, R.chan>>] IN
